@@ -160,12 +160,12 @@ class UnionNode(XmlNode):
             result: Any = None
             with suppress(Exception):
                 if self.context.class_type.is_model(candidate):
-                    self.context.build(candidate, parent_ns=parent_namespace)
                     parser = NodeParser(
                         config=config,
                         context=self.context,
                         handler=EventsHandler,
                     )
+                    parser.parent_ns = parent_namespace
                     result = parser.parse(self.events, candidate)
                 else:
                     result = ParserUtils.parse_var(
